@@ -25,7 +25,8 @@ ASSUMPTIONS = ['array VALUES are finite and moderate (the statement quantifies o
                'allocations above 1 GiB fail with MemoryError in the workers (ASan max_allocation_size_mb / RLIMIT_AS) — treated as an exception outcome',
                'an AddressSanitizer report counts as "can crash or corrupt the interpreter" even when the plain build happens to survive the access']
 TRUSTED = ['clang 14 AddressSanitizer runtime', 'harness/iso.py worker isolation and wall-clock limit', 'translator/guards.py (guard extraction)']
-EXPLANATION = ('proved in Lean: guards extracted from the current source imply the kernel preconditions (decision logic over argument descriptors); '
+EXPLANATION = ('proved in Lean: wrapper and native guards extracted from the current source imply the kernel preconditions and, composed with C10, in-bounds accesses of the index models; '
+               'every extracted guard exit is an exception or an early successful return (decided over the generated table); '
                'validated only: that no degenerate call crashes, hangs or corrupts the interpreter (isolated ASan workers)')
 
 SRC = {}
@@ -230,22 +231,65 @@ def _eval_call(case):
 DT_CLASS = {'b': 1, 'u': 2, 'i': 2, 'f': 3}
 
 
+def _clip(x):
+    return max(-2 ** 62, min(2 ** 62, int(x)))
+
+
 def describe(v):
     """argument descriptor understood by Model/C11.lean: kind,ndim,dtypeclass,flags,intvalue,shape…
     kind 0 none, 1 array, 2 integer scalar, 3 other; dtype class 0 other,1 bool,2 integer,3 float32/64(/128),4 float16;
-    flags bit0 C-contiguous, bit1 writeable, bit2 aligned"""
+    flags bit0 C-contiguous, bit1 writeable, bit2 aligned, bit3 byte-swapped, bit4 some element negative, bit5 some element
+    not finite; intvalue: the integer, or the largest element of an integer/bool array (0 when empty)"""
     if v is None:
         return [0, 0, 0, 0, 0]
     if isinstance(v, np.ndarray):
         k = v.dtype.kind
         cls = 4 if v.dtype == np.float16 else DT_CLASS.get(k, 0)
         fl = (1 if v.flags.c_contiguous else 0) | (2 if v.flags.writeable else 0) | (4 if v.flags.aligned else 0)
-        return [1, v.ndim, cls, fl, 0] + [int(s) for s in v.shape]
+        mx = 0
+        try:
+            if not v.dtype.isnative:
+                fl |= 8
+            if k in 'iuf' and v.size and bool(v.min() < 0):
+                fl |= 16
+            if k in 'fc' and not bool(np.all(np.isfinite(v))):
+                fl |= 32
+            if k in 'iub' and v.size:
+                mx = _clip(v.max())
+        except Exception:
+            pass
+        return [1, v.ndim, cls, fl, mx] + [int(s) for s in v.shape]
     if isinstance(v, (bool, np.bool_)):
         return [2, 0, 1, 0, int(v)]
     if isinstance(v, (int, np.integer)):
-        return [2, 0, 2, 0, max(-2 ** 62, min(2 ** 62, int(v)))]
-    return [3, 0, 0, 0, 0]
+        return [2, 0, 2, 0, _clip(v)]
+    fl = 0
+    if isinstance(v, (float, np.floating, list, tuple)):
+        try:
+            if not bool(np.all(np.isfinite(np.asarray(v, dtype=np.float64)))):
+                fl = 32
+        except Exception:
+            pass
+    return [3, 0, 0, fl, 0]
+
+
+def describe_x(v):
+    """the optional `<param>.x=<numpy type number>,<number of non-zero elements>` of an array"""
+    if not isinstance(v, np.ndarray):
+        return None
+    try:
+        nnz = int(np.count_nonzero(v))
+    except Exception:
+        nnz = 0
+    return [int(v.dtype.num), nnz]
+
+
+def _desc_tokens(name, v):
+    toks = [f'{name}=' + ','.join(str(x) for x in describe(v))]
+    x = describe_x(v)
+    if x is not None:
+        toks.append(f'{name}.x=' + ','.join(str(i) for i in x))
+    return toks
 
 
 def _eval_guards(case):
@@ -268,7 +312,7 @@ def _eval_guards(case):
     toks = [f'c11 kind=guards fn={_short(spec["fn"])}']
     for n in names:
         if n in bound:
-            toks.append(f'{n}=' + ','.join(str(x) for x in describe(bound[n])))
+            toks += _desc_tokens(n, bound[n])
     line = ' '.join(toks)
     drv = core.drive([line])[0]
     fnd = []
@@ -285,10 +329,162 @@ def _eval_guards(case):
     return dict(findings=fnd, nontrivial=verdict in ('accept', 'reject'), sig=line, tags=tags)
 
 
+# ---- native guard model vs. direct calls of native entry points ------------------------------------------------------
+#
+# `nguards` cases: a direct call of a native entry point (documented as dangerous: the kernels trust their callers beyond
+# what the entry point checks). The Lean interpreter of the extracted NATIVE guards is run on the descriptors of the
+# arguments; the real call is executed only when the model says `reject` (then it must raise) or when the argument tuple is
+# the unmutated valid one (then it must not crash, and the model must accept it). Mutated tuples the model accepts are
+# never executed.
+
+def native_table():
+    """{'_module.name': [C parameter names]} from the `-- native:` lines the translator writes"""
+    p = core.LEAN / 'Mahotas' / 'Generated' / 'Guards.lean'
+    import re
+    out = {}
+    if p.exists():
+        for m in re.finditer(r'^-- native: (\S+) cfn=(\S+) params=(\S*) fmt=(\S*)$', p.read_text(), re.M):
+            out[m.group(1)] = m.group(3).split(',') if m.group(3) else []
+    return out
+
+
+def _arr(dtype, shape, fill='rand', layout=None, seed=0, **kw):
+    d = dict(dtype=dtype, shape=list(shape), fill=fill, seed=seed)
+    if layout:
+        d['layout'] = layout
+    d.update(kw)
+    return {'a': d}
+
+
+def _native_valid(rng, target):
+    """a valid argument tuple (inside the kernel's domain) of a native entry point, in the order of its C parameters"""
+    sd = rng.randrange(10 ** 6)
+    if target == '_convolve.find2d':
+        dt = rng.choice(['uint8', 'int32', 'float64', 'bool'])
+        sh = (rng.randint(1, 6), rng.randint(1, 6))
+        return [_arr(dt, sh, seed=sd), _arr(dt, (rng.randint(1, 3), rng.randint(1, 3)), seed=sd + 1), _arr('bool', sh, 'zeros')]
+    if target == '_convolve.template_match':
+        dt = rng.choice(['uint8', 'int32', 'float64'])
+        nd = rng.randint(1, 3)
+        sh = tuple(rng.randint(1, 5) for _ in range(nd))
+        return [_arr(dt, sh, seed=sd), _arr(dt, tuple(rng.randint(1, 3) for _ in range(nd)), seed=sd + 1), _arr(dt, sh, 'zeros'),
+                {'v': rng.choice([0, 1, 2, 3, 4])}, {'v': 0}]
+    if target == '_morph.hitmiss':
+        dt = rng.choice(['uint8', 'int32', 'uint16'])
+        nd = rng.randint(1, 3)
+        sh = tuple(rng.randint(1, 6) for _ in range(nd))
+        return [_arr(dt, sh, hi=1, seed=sd), _arr(dt, tuple(rng.randint(1, 3) for _ in range(nd)), hi=2, seed=sd + 1), _arr(dt, sh, 'zeros')]
+    if target == '_morph.majority_filter':
+        sh = (rng.randint(1, 7), rng.randint(1, 7))
+        return [_arr('bool', sh, 'bool', seed=sd), {'v': rng.randint(2, 5)}, _arr('bool', sh, 'zeros')]
+    if target == '_center_of_mass.center_of_mass':
+        dt = rng.choice(['uint8', 'float64', 'int32'])
+        sh = tuple(rng.randint(1, 5) for _ in range(rng.randint(1, 3)))
+        return [_arr(dt, sh, seed=sd), rng.choice([{'v': None}, _arr('int32', sh, 'labels', hi=3, seed=sd + 1)])]
+    if target == '_thin.thin':
+        # the kernel relies on the zero frame thin.py adds: an all-False image is inside its domain for every shape
+        sh = (rng.randint(3, 7), rng.randint(3, 7))
+        return [_arr('bool', sh, 'zeros'), _arr('bool', sh, 'zeros'), {'v': rng.choice([-1, 1, 3])}]
+    if target == '_interpolate.zoom_shift':
+        nd = rng.randint(1, 3)
+        sh = tuple(rng.randint(2, 5) for _ in range(nd))
+        return [_arr('float64', sh, 'unit', seed=sd), {'v': None}, _arr('float64', (nd,), 'unit', seed=sd + 1), _arr('float64', sh, 'zeros'),
+                {'v': rng.choice([0, 1, 3])}, {'v': rng.choice([0, 1, 2, 4])}, {'v': 0.0}]
+    raise KeyError(target)
+
+
+NATIVE_TARGETS = ['_convolve.find2d', '_convolve.template_match', '_morph.hitmiss', '_morph.majority_filter',
+                  '_center_of_mass.center_of_mass', '_thin.thin', '_interpolate.zoom_shift']
+_OTHER_DTYPES = ['uint8', 'int32', 'int64', 'float64', 'float32', 'bool', 'uint16', 'complex128', 'float16']
+
+
+def _native_mutate(rng, args):
+    """replace 1-2 array arguments by: another rank, another dtype, another shape, a non-contiguous / read-only layout,
+    a zero-length axis, or a non-array"""
+    args = json.loads(json.dumps(args))
+    idx = [i for i, a in enumerate(args) if 'a' in a]
+    muts = []
+    for i in rng.sample(idx, min(len(idx), rng.choice([1, 1, 2]))):
+        d = args[i]['a']
+        sh = list(d['shape'])
+        kind = rng.choice(['rank+', 'rank-', 'dtype', 'shape', 'layout', 'readonly', 'zero', 'nonarray', 'none'])
+        if kind == 'rank+':
+            d['shape'] = sh + [rng.randint(1, 3)]
+        elif kind == 'rank-':
+            d['shape'] = sh[:-1]
+        elif kind == 'dtype':
+            d['dtype'] = rng.choice([t for t in _OTHER_DTYPES if t != d['dtype']])
+        elif kind == 'shape':
+            if sh:
+                sh[rng.randrange(len(sh))] += rng.randint(1, 2)
+            d['shape'] = sh
+        elif kind == 'layout':
+            d['layout'] = rng.choice(['F', 'strided', 'transposed', 'negstride'])
+        elif kind == 'readonly':
+            d['layout'] = 'readonly'
+        elif kind == 'zero':
+            if sh:
+                sh[rng.randrange(len(sh))] = 0
+            d['shape'] = sh
+        elif kind == 'nonarray':
+            args[i] = rng.choice([{'v': 3}, {'v': 'x'}, {'l': [{'v': 1}, {'v': 2}]}, {'v': 2.5}])
+        else:
+            args[i] = {'v': None}
+        muts.append([str(i), kind])
+    return args, muts
+
+
+def _eval_nguards(case):
+    spec = case['call']
+    target = spec['fn'][len('mahotas.'):]
+    if target.startswith('features.'):
+        target = target[len('features.'):]
+    params = native_table().get(target)
+    if params is None:
+        return dict(findings=[dict(kind='model', key=f'nguards:{target}:not-in-generated-table', detail=dict(target=target))],
+                    nontrivial=False, sig=None, tags=dict(kind='nguards', fn=target, verdict='unknown-fn'))
+    try:
+        args = [specs.build(a) for a in spec['args']]
+    except Exception:
+        return dict(findings=[], nontrivial=False, sig=None, tags=dict(kind='nguards', outcome='unbuildable'))
+    toks = [f'c11 kind=nguards fn={target}']
+    for n, v in zip(params, args):
+        toks += _desc_tokens(n, v)
+    line = ' '.join(toks)
+    drv = core.drive([line])[0]
+    verdict = drv.get('verdict', 'error')
+    action = str(drv.get('action', '-1'))
+    tags = dict(kind='nguards', fn=target, verdict=verdict, mutated=bool(case['muts']))
+    fnd = []
+    if 'error' in drv or verdict not in ('accept', 'reject'):
+        fnd.append(dict(kind='model', key='driver:nguards:' + str(drv.get('error', verdict)), detail=dict(line=line, answer=drv)))
+    elif verdict == 'reject' or not case['muts']:
+        out = _run(spec)
+        tags['outcome'] = out['st'] if out['st'] != 'exc' else 'exc:' + out.get('type', '?')
+        if out['st'] in BAD:
+            detail = {k: out.get(k) for k in ('st', 'kind', 'access', 'frames', 'signal', 'rc', 'why', 'wall') if out.get(k) is not None}
+            detail.update(report=(out.get('report') or out.get('stderr') or '')[:1200], line=line, answer=drv)
+            what = 'rejected-by-model' if verdict == 'reject' else 'valid-call'
+            fnd.append(dict(kind='property', key=f'native:{target}:{what}:{out["st"]}', detail=detail))
+        elif verdict == 'reject' and action != '4' and out['st'] == 'ok':
+            fnd.append(dict(kind='model', key=f'nguards:{target}:model-rejects-code-accepts',
+                            detail=dict(line=line, answer=drv, outcome={k: out.get(k) for k in ('st', 'summary')})))
+        elif verdict == 'reject' and action == '4' and out['st'] != 'ok':
+            fnd.append(dict(kind='model', key=f'nguards:{target}:early-return-raised', detail=dict(line=line, answer=drv, outcome=out)))
+        elif verdict == 'reject' and out['st'] == 'exc' and out.get('type') not in ('RuntimeError', 'ValueError', 'TypeError'):
+            fnd.append(dict(kind='model', key=f'nguards:{target}:unexpected-{out.get("type")}', detail=dict(line=line, answer=drv, outcome=out)))
+        elif verdict == 'accept' and out['st'] == 'exc':
+            pass            # a valid tuple refused after the guards (e.g. a later check): not a claim of the model
+    else:
+        tags['outcome'] = 'accepted-not-run'
+    return dict(findings=fnd, nontrivial=verdict in ('accept', 'reject'), sig=line, tags=tags)
+
+
 def evaluate(cases):
     out = []
     for c in cases:
-        out.append(_eval_guards(c) if c.get('kind') == 'guards' else _eval_call(c))
+        k = c.get('kind')
+        out.append(_eval_guards(c) if k == 'guards' else _eval_nguards(c) if k == 'nguards' else _eval_call(c))
     return out
 
 
@@ -339,11 +535,21 @@ def cases(rng, tier):
         if too_expensive(call):
             continue
         out.append(dict(kind='guards', call=call, muts=[list(m) for m in muts]))
+    nn = dict(quick=420, thorough=8000, search=0)[tier]
+    for j in range(nn):
+        target = NATIVE_TARGETS[j % len(NATIVE_TARGETS)]
+        valid = _native_valid(rng, target)
+        if rng.random() < 0.8:
+            args, muts = _native_mutate(rng, valid)
+        else:
+            args, muts = valid, []
+        mod = 'mahotas.features.' if target.split('.')[0] in ('_lbp', '_surf', '_texture', '_zernike') else 'mahotas.'
+        out.append(dict(kind='nguards', call=dict(fn=mod + target, args=args, kw={}), muts=muts))
     return out
 
 
 def shrink(case):
-    if case.get('kind') == 'guards':
+    if case.get('kind') in ('guards', 'nguards'):
         return
     # first: fewer mutations; then smaller arrays
     for m in case.get('muts', []):
